@@ -43,7 +43,7 @@ ALL_ERRORS = {**KIND_ERRORS, **STRICT_ERRORS}
 
 def _helper_like(qual):
     last = qual.split('.')[-1]
-    return (last.startswith('_') and not last.startswith('__')) or '<locals>' in qual
+    return (last.startswith('_') and not last.startswith('__')) or '<locals>' in qual or last in ('__init__', '__post_init__')
 
 
 def under(*quals):
